@@ -43,15 +43,31 @@ def parse_subject(repo):
     return info
 
 
-def make_psy(info, version):
+def kernel_tree_blob(info):
+    '''Pickled fparser2 parse tree of the subject kernel (see make_psy).'''
+    import pickle
+    from psyclone.psyGen import PSyFactory
+    psy = PSyFactory(SUBJECT["api"], distributed_memory=False).create(info)
+    kern = psy.invokes.invoke_list[0].schedule.coded_kernels()[0]
+    return pickle.dumps(kern.ast)
+
+
+def make_psy(info, version, blob=None):
     '''A fresh PSy object (own schedules, kernels, kernel PSyIR) whose first
     kernel is transformed into kernel version `version`
-    (1: ACCRoutineTrans, 2: Dynamo0p3KernelConstTrans).'''
+    (1: ACCRoutineTrans, 2: Dynamo0p3KernelConstTrans).
+    With `blob` the kernel object receives its own unpickled copy of the
+    kernel's fparser2 parse tree instead of re-parsing the kernel source
+    (CodedKern.ast caches that tree; re-parsing is 85% of the cost of a fresh
+    object); c29._prepare checks that this changes nothing in the output.'''
     from psyclone.psyGen import PSyFactory
     from psyclone.transformations import (ACCRoutineTrans,
                                           Dynamo0p3KernelConstTrans)
     psy = PSyFactory(SUBJECT["api"], distributed_memory=False).create(info)
     kern = psy.invokes.invoke_list[0].schedule.coded_kernels()[0]
+    if blob is not None:
+        import pickle
+        kern._fp2_ast = pickle.loads(blob)        # pylint: disable=protected-access
     if version == 1:
         ACCRoutineTrans().apply(kern)
     else:
@@ -407,7 +423,7 @@ class PsyFacts:
         return -1
 
 
-def replay(case, info, refs):
+def replay(case, info, refs, blob=None):
     '''Run case["sched"] with real concurrent runs, each on its own fresh PSy
     object with its own transformed kernel.  -> the recorded trace.'''
     from psyclone import psyGen
@@ -418,7 +434,7 @@ def replay(case, info, refs):
     real_os, had_open = psyGen.os, "open" in vars(psyGen)
     try:
         set_config(outdir, scheme)
-        psys = {run: make_psy(info, ver[run - 1]) for run in range(1, nruns + 1)}
+        psys = {run: make_psy(info, ver[run - 1], blob) for run in range(1, nruns + 1)}
         if pre:
             # the kernel an earlier, completed, sequential run of version `pre`
             # wrote (refs[pre] is the text such a run writes, tag 0)
